@@ -272,3 +272,7 @@ func NewOn(g *script.Genesis, home, backend string) (r *Runner, err error) {
 	r.markCommitted()
 	return r, nil
 }
+
+// NewBareApp constructs the application on an empty MemDB without InitChain: the stores are mounted and empty. The pure
+// engine uses it to call keeper functions on states it writes itself (owner gate on arbitrary stored owner strings).
+func NewBareApp(home string) *app.App { return newApp(dbm.NewMemDB(), home) }
